@@ -14,7 +14,7 @@
 (* tokenizer and parser (Accepted), that the tokenizer tiles it (TilingInv)  *)
 (* and structural facts of the converted tree (TreeFacts); the harness       *)
 (* compares the tree with what the real emmet.abbreviation.parse() returns.  *)
-EXTENDS AbbrConvert
+EXTENDS AbbrPrint
 
 CONSTANTS NameFr,        \* element names; "" = implicit name
           ModFr,         \* modifiers: "#i", ".c", "[t=v]", "{txt}" ... (kind = first character)
@@ -68,5 +68,5 @@ Tiling == Complete => TilingInv
 TreeFacts == Complete => LET L == ConvertOut.nodes IN
                 /\ L # <<>> /\ L[1].d = 0
                 /\ \A i \in 2..Len(L) : L[i].d <= L[i - 1].d + 1                 \* pre-order listing of a forest
-GDump == Complete => PrintT(<<"VEC", ToJson([s |-> s, out |-> ConvertOut])>>)
+GDump == Complete => PrintT(<<"VEC", ToJson([s |-> s, out |-> ConvertOut, printed |-> Printed])>>)
 =============================================================================
